@@ -202,8 +202,8 @@ theorem info_of_start (cfgBits : List Nat) (maxLen : Nat) (file : Bytes) (n : Na
     (hn : n ≤ maxLen) (hn32 : n < 4294967296) (hm : mti.length = 4) (hb : bitmap.length = 16)
     (hstart : file.take 24 = be32 n ++ (mti ++ bitmap))
     (hbits : ∀ b ∈ presentBits bitmap, b ∈ cfgBits) :
-    ∃ blk, ipmInfo cfgBits maxLen Gen.latin1Numeric Gen.cp037Numeric file =
-      .valid blk (encodingCheck Gen.latin1Numeric Gen.cp037Numeric mti) := by
+    ipmInfo cfgBits maxLen Gen.latin1Numeric Gen.cp037Numeric file =
+      .valid (block1014Check (file.take 2500)) (encodingCheck Gen.latin1Numeric Gen.cp037Numeric mti) := by
   have hlen24 : 24 ≤ file.length := by
     have := congrArg List.length hstart
     simp only [List.length_take, List.length_append, be32_length, hm, hb] at this
@@ -234,7 +234,7 @@ theorem info_of_start (cfgBits : List Nat) (maxLen : Nat) (file : Bytes) (n : Na
     simp [hbits b hb']
   simp only []
   rw [if_neg h1, h4, hdec, if_neg (by omega), hb16, h3, hm4]
-  exact ⟨_, rfl⟩
+  rfl
 
 /-- C17(f): every IPM file written by the library's writer (unblocked), whose first message was
     encoded by `encodeCore` under a configuration whose elements are all known to the inspector and
@@ -253,7 +253,7 @@ theorem C17_writer_output_valid_unblocked (env : Env) (cfg : Config) (m : Dict) 
   simp only [Bool.false_eq_true, if_false] at hbs
   have hbl : (bytesOfBits (flagsOf pres)).length = 16 := bitmapOf_length pres
   obtain ⟨hsub, hpres, _, parts, _, _, hparts⟩ := C02.C02_elements_in_order env cfg m allBits pres data hbits
-  apply info_of_start cfgBits maxLen _ rec1.length mti (bytesOfBits (flagsOf pres)) hlen (by omega) hm4 hbl
+  refine ⟨_, info_of_start cfgBits maxLen _ rec1.length mti (bytesOfBits (flagsOf pres)) hlen (by omega) hm4 hbl ?_ ?_⟩
   · rw [C03.C03_layout_unblocked, vbsBytes_cons, hbs]
     simp only [List.append_assoc]
     rw [List.take_append, List.take_of_length_le (by simp [be32_length])]
@@ -267,5 +267,57 @@ theorem C17_writer_output_valid_unblocked (env : Env) (cfg : Config) (m : Dict) 
     obtain ⟨i, hi, rfl⟩ := List.getElem_of_mem hb
     obtain ⟨f, v, hf, _, _⟩ := hparts i hi (by omega)
     exact hcfg _ ⟨f, hf⟩
+
+/-- C17(g): the same for the 1014-BLOCKED writer, and there the report also says "blocked": the
+    inspector's answer for every blocked IPM file the library writes — any number of records and
+    blocks — is (valid, blocked, the MTI's encoding family) -/
+theorem C17_writer_output_valid_blocked (env : Env) (cfg : Config) (m : Dict) (rec1 : Bytes) (others : List Bytes)
+    (maxLen : Nat) (hmax : maxLen < 4294967296)
+    (henc : encodeCore env cfg false m = .ok rec1) (hlen : rec1.length ≤ maxLen)
+    (cfgBits : List Nat) (hcfg : ∀ b, (∃ f, cfg.get b = some f) → b ∈ cfgBits)
+    (mti : Bytes) (hmti : encodeMti env m = .ok mti) (hm4 : mti.length = 4) :
+    ipmInfo cfgBits maxLen Gen.latin1Numeric Gen.cp037Numeric (Writer.listToBytes 1012 true (rec1 :: others)) =
+      .valid true (encodingCheck Gen.latin1Numeric Gen.cp037Numeric mti) := by
+  obtain ⟨mti', pres, data, hm', hbits, hbs, _, _, _⟩ := C02.C02_message_layout env cfg false m rec1 henc
+  rw [hmti] at hm'
+  injection hm' with e
+  subst e
+  simp only [Bool.false_eq_true, if_false] at hbs
+  have hbl : (bytesOfBits (flagsOf pres)).length = 16 := bitmapOf_length pres
+  obtain ⟨hsub, hpres, _, parts, _, _, hparts⟩ := C02.C02_elements_in_order env cfg m allBits pres data hbits
+  have hrun : Writer.listToBytes 1012 true (rec1 :: others) =
+      stream 1012 (Writer.rawWrites (rec1 :: others) ++ [be32 0]) := by
+    simp [Writer.listToBytes, Writer.run_blocked]
+  have hflat : (Writer.rawWrites (rec1 :: others) ++ [be32 0]).flatten =
+      be32 rec1.length ++ (mti ++ (bytesOfBits (flagsOf pres) ++ (data ++ (vbsBytes others ++ be32 0)))) := by
+    rw [List.flatten_append, Writer.rawWrites_flatten, vbsBytes_cons, hbs]
+    simp [List.append_assoc]
+  have hd24 : 24 ≤ (Writer.rawWrites (rec1 :: others) ++ [be32 0]).flatten.length := by
+    rw [hflat]; simp only [List.length_append, be32_length, hm4, hbl]; omega
+  have hstart : (Writer.listToBytes 1012 true (rec1 :: others)).take 24 =
+      be32 rec1.length ++ (mti ++ bytesOfBits (flagsOf pres)) := by
+    have hb24 := blockify_take24 _ hd24
+    have hbl24 : 24 ≤ (blockify 1012 (Writer.rawWrites (rec1 :: others) ++ [be32 0]).flatten).length := by
+      have := congrArg List.length hb24
+      simp only [List.length_take] at this
+      omega
+    have : (stream 1012 (Writer.rawWrites (rec1 :: others) ++ [be32 0])).take 24 =
+        (Writer.rawWrites (rec1 :: others) ++ [be32 0]).flatten.take 24 := by
+      rcases C04.C04_stream_vs_oneshot (Writer.rawWrites (rec1 :: others) ++ [be32 0]) with h | h
+      · rw [h, hb24]
+      · rw [h, List.take_append_of_le_length hbl24, hb24]
+    rw [hrun, this, hflat]
+    rw [List.take_append, List.take_of_length_le (by simp [be32_length])]
+    simp only [be32_length]
+    rw [List.take_append, List.take_of_length_le (by omega), hm4,
+      List.take_append, List.take_of_length_le (by omega), hbl]
+    simp
+  rw [info_of_start cfgBits maxLen _ rec1.length mti (bytesOfBits (flagsOf pres)) hlen (by omega) hm4 hbl hstart ?_,
+    C17_blocked_writer_output]
+  intro b hb
+  rw [← bitmapOf_eq, presentBits_bitmapOf_sublist pres hsub] at hb
+  obtain ⟨i, hi, rfl⟩ := List.getElem_of_mem hb
+  obtain ⟨f, v, hf, _, _⟩ := hparts i hi (by omega)
+  exact hcfg _ ⟨f, hf⟩
 
 end Cardutil.Props.C17
